@@ -29,14 +29,18 @@ CHECKS = {
   'technique': 'Coq proof over translated tables/mask expressions + extracted-model correspondence + differential search',
  },
  'C18': {
-  'text': ("Proof (Coq): for EVERY byte string the model of compact.go returns exactly the raw token stream of the RFC 8259 parse of the input "
-           "(Spec/Json.v, the bytes encoding/json.Compact appends) or an error when the input is not a JSON text; it never reads outside src++[NUL] and "
-           "never exhausts its fuel; acceptance is equivalent to rfc_json; the number recogniser equals the RFC number grammar. The Coq specification "
-           "itself (parse + Compact/Indent renderers) is compared with the real encoding/json on every run. Indent, pre-filled destinations, "
-           "idempotence and HTMLEscape are checked by correspondence/differential runs (all strings <=4 over the 27-byte alphabet, generated texts "
-           "with every white-space placement and single-byte edits, 7 prefix/indent pairs). Partial: no theorem yet for Indent rendering and idempotence."),
+  'text': ("Proof (Coq): for EVERY byte string the model of compact.go / indent.go (one walk, parametrised by the mode) appends exactly what "
+           "encoding/json appends: Compact the raw token stream of the RFC 8259 parse (Spec/Json.v), Indent that stream laid out by the reference of "
+           "encoding/json.Indent for every prefix and indent string, followed by the white space that followed the value; an error when the input is not a "
+           "JSON text (nesting limit read from the source); never a read outside src++[NUL], never out of fuel; acceptance is equivalent to rfc_json; the number "
+           "recogniser equals the RFC number grammar. Proved on top: Compact(Compact(x)) = Compact(x), Indent(Indent(x)) = Indent(x) for white-space prefix and "
+           "indent, Compact(Indent(x)) = Compact(x), Indent(Compact(x)) = Indent(x) less its trailing white space (parser soundness into value trees, "
+           "completeness on laid-out trees, nesting scan). The Coq specification itself (parse + Compact/Indent renderers) is compared with the real "
+           "encoding/json on every run. Pre-filled destinations, idempotence on the implementation and HTMLEscape (which decodes and marshals again, so it is "
+           "compared by value) are checked by correspondence/differential runs (all strings <=4 over the 27-byte alphabet, generated texts with every "
+           "white-space placement and single-byte edits, 7 prefix/indent pairs)."),
   'note': TB,
-  'technique': 'Coq proof (model = RFC 8259 spec on all inputs) + extracted-model and extracted-spec correspondence + differential search',
+  'technique': 'Coq proof (Compact and Indent models = encoding/json reference on all inputs; idempotence) + extracted-model and extracted-spec correspondence + differential search',
  },
  'C05': {
   'text': ("Proof (Coq): for EVERY byte string, Unmarshal(b,&v) with v interface{} (buffer mode: decodeEmptyInterface, map/slice/float/string decoders, "
